@@ -224,6 +224,23 @@ CLAIMED["C02"] = {
     "design": "5 C02",
 }
 
+CLAIMED["C08"] = {
+    "text": "Reeval.tla runs on ChaiCore's machine extended with the syntax tree as state: every literal node owns ONE cell (M.ast) that each "
+            "evaluation hands out (as Constant_AST_Node::m_value is), values returned by value carry the return-value flag, and every mutating "
+            "operation respects const/temporary flags. TLC evaluates generated cases - functions building and mutating locals from literals along "
+            "every escape route (var, var&, :=, argument, return, ternary, container element, capture, loop variables), called 3-4 times interleaved "
+            "- and decides AstUnchanged after every segment and Rerun per call group; the same cases with one literal marked mutable must be "
+            "reported (sanity). Each case is replayed in the real engine with both parsers through eval(AST_Node) on kept trees: outcome, output and "
+            "value per segment equal the reference, equal calls are equal among themselves, and a structural snapshot of every kept tree (node kinds, "
+            "texts, positions, each Constant's type/const flag/value, folded right-hand constants, Def/Lambda bodies, originals of compiled loops) "
+            "equals the snapshot taken after parsing. Textual cases cover literal kinds outside the reference (floats, chars, suffixes, ranges, "
+            "string/vector/map methods, classes, guards).",
+    "note": "Sampling over the generator's space (400 cases quick / 6000 thorough per seed) plus 80 textual cases; not exhaustive. 'Equal environment' "
+            "is built by construction (functions read only parameters, locals, literals, pure helpers). Trusted: the AST printer and the snapshot walker.",
+    "technique": "TLA+ reference machine with the syntax tree as state, evaluated by TLC on generated call histories (AstUnchanged, Rerun) + replay into the implementation with structural AST snapshots (both parsers)",
+    "design": "5 C08",
+}
+
 PENDING_REASON = "check not built yet in this session; planned (see DESIGN.md section 8)"
 
 ALL = [f"C{i:02d}" for i in range(1, 21)]
@@ -268,7 +285,7 @@ def main():
     print("claimed:", sorted(CLAIMED))
 
 
-HOOK_COMMITS = ["fd261f7", "640e2e5"]
+HOOK_COMMITS = ["fd261f7", "640e2e5", "21ea125"]
 NOT_APPLICABLE = {}
 
 if __name__ == "__main__":
